@@ -199,11 +199,13 @@ class ObjMachine(Machine):
         t = s.randrange(len(self.slots))
         r = s.random()
         if r < 0.5:
-            return dict(op="copy_check", t=t, how=s.choice(["copy", "data"]),
+            return dict(op="copy_check", t=t, how=s.choice(["copy", "data", "data_uuid"]),
                         side=s.choice(["copy", "copy", "source"]), mut=s.randint(0, 99),
                         arg=s.randint(0, 99))
         if r < 0.6:
             return dict(op="retitle", t=t, arg=s.randint(0, 99))
+        if r < 0.68:
+            return dict(op="interleave", t=t, arg=s.randint(0, 99))
         kind = s.choice(["platform", "platform", "port_nr", "protocol_nr", "type", "resequence",
                          "sort", "group", "ungroup", "platform_same"])
         return dict(op="transform", t=t, kind=kind, arg=s.randint(0, 99))
@@ -220,9 +222,98 @@ class ObjMachine(Machine):
     def apply(self, op: dict) -> str:
         self._cur_op = op["op"]
         try:
-            return getattr(self, "_op_" + op["op"])(op)
+            out = getattr(self, "_op_" + op["op"])(op)
+            self._check_unique_ids()
+            return out
         finally:
             self.log.take()
+
+    def _check_unique_ids(self):
+        """Within one live object every part has its own identifier."""
+        for slot in self.slots:
+            obj, cname = slot["obj"], slot["cls"]
+            if cname not in ("Acl", "AceGroup", "AddrGroup", "Ace"):
+                continue
+            ids = [obj.uuid]
+            if cname == "Acl":
+                for it in obj.items:
+                    ids.append(it.uuid)
+                    if isinstance(it, AceGroup):
+                        ids.extend(x.uuid for x in it.items)
+            elif cname in ("AceGroup", "AddrGroup"):
+                ids.extend(x.uuid for x in obj.items)
+            for ace in self._aces(obj):
+                ids.extend(getattr(ace, nm).uuid for nm in
+                           ("protocol", "srcaddr", "srcport", "dstaddr", "dstport", "option"))
+            if len(ids) != len(set(ids)) and not slot.get("dup_items"):
+                dup = [u for u in set(ids) if ids.count(u) > 1][0]
+                self._fail("C16.identifier-collision",
+                           f"{cname}: two different parts of one object carry the identifier "
+                           f"{dup[-6:]} after {self._cur_op}", cls=cname)
+
+    def _op_interleave(self, op):
+        """The same operations on a source and on its copy, interleaved, must leave the source
+        as an isolated control (a second copy treated alone) ends up."""
+        slot = self._slot(op["t"])
+        if slot is None or slot["cls"] != "Acl":
+            return "noop"
+        x = slot["obj"]
+        try:
+            control, c = x.copy(), x.copy()
+        except DOCUMENTED:
+            return "noop"
+        if snapshot(control) != snapshot(x):
+            return "noop"  # judged by copy_check
+        # make the copy differ in what a text cannot show
+        for i, it in enumerate(c.items):
+            it.note = f"copy-{i}"
+        steps = {0: ["ungroup", "group"], 1: ["ungroup", "platform", "group"],
+                 2: ["resequence", "ungroup", "group", "sort"],
+                 3: ["group", "port_nr", "ungroup", "group"]}[op["arg"] % 4]
+        import gc as _gc
+
+        def do(o, st):
+            if st == "ungroup":
+                o.ungroup()
+            elif st == "group":
+                o.group(gen.HEAD)
+            elif st == "platform":
+                o.platform = o.platform
+            elif st == "resequence":
+                o.resequence(10, 10)
+            elif st == "sort":
+                o.sort()
+            elif st == "port_nr":
+                o.port_nr = not o.port_nr
+
+        try:
+            for st in steps:
+                if st == "resequence" and any(isinstance(it, AceGroup) and not it.items
+                                              for it in x.items):
+                    return "noop"
+                do(x, st)
+                do(c, st)
+                if op["arg"] % 3 == 0:
+                    _gc.collect()
+                do(control, st)
+        except DOCUMENTED:
+            self.slots.remove(slot)
+            return "aborted"
+        except TypeError:
+            self.slots.remove(slot)
+            return "aborted"
+        a, b = snapshot(x), snapshot(control)
+        if a != b:
+            from .m_acl import AclMachine
+            self._fail("C16.interleave",
+                       f"operations {steps} interleaved on a source and its copy leave the source "
+                       f"different from an isolated control: "
+                       f"{AclMachine._dict_diff(b[1], a[1]) if a[0] == b[0] else 'text differs'}",
+                       cls="Acl")
+        self.did += 1
+        self.probes["interleavings"] += 1
+        self.trace.append(("interleave", tuple(steps)))
+        return "ok"
 
     def _op_obj_new(self, op):
         cls = CLASSES[op["cls"]]
@@ -276,7 +367,12 @@ class ObjMachine(Machine):
         cname = slot["cls"]
         cls = CLASSES[cname]
         try:
-            c = x.copy() if op["how"] == "copy" else cls(**x.data())
+            if op["how"] == "copy":
+                c = x.copy()
+            elif op["how"] == "data_uuid":
+                c = cls(**x.data(uuid=True))  # what the library's own setters do
+            else:
+                c = cls(**x.data())
         except DOCUMENTED as ex:
             self._fail("C16.rebuild-raises", f"{cname}.{op['how']} raised {type(ex).__name__}: "
                                              f"{ex} for {x.line!r}", cls=cname)
@@ -319,7 +415,8 @@ class ObjMachine(Machine):
                                        f"at source{gx[b]} / copy{gc[b]}", cls=cname)
         # two rebuilds of one source must not share state with each other either
         try:
-            c2 = x.copy() if op["how"] == "data" else cls(**x.data())
+            c2 = cls(**x.data(uuid=True)) if op["how"] == "data_uuid" else (
+                x.copy() if op["how"] == "data" else cls(**x.data()))
             g2 = walk_mutable(c2)
             bad2 = (set(gc) & set(g2)) - allowed
             if bad2:
